@@ -295,7 +295,14 @@ class CompiledRouter:
                     raise UnacceptableRouteError(
                         _NO_CHILDREN_ERR.format(uri_template, *cpc)
                     )
-                insert(new_node.children, path_index + 1)
+                try:
+                    insert(new_node.children, path_index + 1)
+                except Exception:
+                    # NOTE: The template was rejected further down the new
+                    #   branch; remove the branch again, as above, so that
+                    #   the rejected route leaves no trace in the tree.
+                    nodes.remove(new_node)
+                    raise
 
         insert(self._roots)
         # NOTE(caselit): when compile is True run the actual compile step, otherwise
